@@ -109,6 +109,7 @@ def check(ctx):
     check_lookup_by_given_name(ctx)
     check_mapper_consulted(ctx)
     check_int_width(ctx)
+    check_ensembl_pattern(ctx)
     # the files validation writes are assembled without creating a name
     # twice (sa/rules/h5names.py)
     from ..rules.h5names import check_h5_names_created_once
@@ -847,3 +848,88 @@ def check_int_width(ctx):
            if n_round >= 2 else
            'the validation writers no longer round with np.round: the '
            'agreement with choose_int_dtype has to be re-established')
+
+
+def check_ensembl_pattern(ctx):
+    """identifiers are classified as Ensembl ids by a regular expression:
+    `ENS`, letters, digits and an optional version suffix `.digits`,
+    matched against the *whole* identifier.  The structure is read off the
+    parsed expression (re._parser): the separator of the version suffix
+    is the literal dot -- an unescaped `.` matches any character, and
+    names such as ENSG0001-1 are then kept verbatim instead of being
+    replaced by a placeholder."""
+    import re._parser as sre
+    from re._constants import LITERAL, ANY, MAX_REPEAT, SUBPATTERN, IN
+    db = ctx.db
+    rule = 'R-IDIOM/ensembl-pattern'
+    fi = db.fn('gene_id.utils:is_ensembl')
+    ctx.touch(fi)
+    consts = []
+    for scope in (fi.node, fi.module.tree):
+        for c in ast.walk(scope):
+            if isinstance(c, ast.Call) and isinstance(
+                    c.func, ast.Attribute) and c.func.attr == 'compile' \
+                    and c.args and isinstance(c.args[0], ast.Constant) \
+                    and isinstance(c.args[0].value, str) \
+                    and c.args[0].value.startswith('ENS'):
+                consts.append(c.args[0])
+    if not consts:
+        raise AnalysisError('is_ensembl: the Ensembl pattern was not found')
+    for k, c in enumerate(consts[:1]):
+        try:
+            parsed = list(sre.parse(c.value))
+        except Exception as e:       # noqa: BLE001
+            ctx.fail(rule, f'is_ensembl:pattern#{k}', fi.loc(c),
+                     f'the pattern does not parse: {e}')
+            continue
+        prefix = ''.join(chr(v) for (op, v) in parsed[:3]
+                         if op is LITERAL)
+        ok_prefix = prefix == 'ENS'
+        opt = [x for x in parsed if x[0] is MAX_REPEAT and x[1][0] == 0
+               and x[1][1] == 1]
+        ok_sep = False
+        sep = None
+        if opt:
+            inner = list(opt[-1][1][2])
+            if inner and inner[0][0] is SUBPATTERN:
+                inner = list(inner[0][1][3])
+            if inner:
+                sep = inner[0]
+                ok_sep = sep[0] is LITERAL and sep[1] == ord('.')
+        any_used = any(op is ANY for (op, _v) in _flat(parsed))
+        ok = ok_prefix and ok_sep and not any_used
+        ctx.ob(rule, f'is_ensembl:pattern#{k}', fi.loc(c), ok,
+               'ENS + letters + digits + optional `.digits`, the dot '
+               'literal' if ok else
+               f'the pattern {c.value!r} '
+               + ('uses `.` (any character) '
+                  if any_used else 'does not have a literal dot ')
+               + 'as the separator of the version suffix: identifiers '
+               'such as ENSG0001-1 / ENSG0001_2 count as Ensembl ids and '
+               'are kept instead of being given a placeholder')
+    # matched against the whole identifier
+    full = any(isinstance(c, ast.Call) and isinstance(
+        c.func, ast.Attribute) and c.func.attr == 'fullmatch'
+        for c in ast.walk(fi.node))
+    ctx.ob(rule, 'is_ensembl:fullmatch', fi.loc(), full,
+           'the whole identifier has to match' if full else
+           'is_ensembl no longer uses fullmatch: an identifier that merely '
+           'starts with (or contains) an Ensembl id is classified as one')
+
+
+def _flat(parsed):
+    for item in parsed:
+        op, av = item
+        yield item
+        if isinstance(av, tuple):
+            for x in av:
+                if hasattr(x, '__iter__') and not isinstance(x, (str, bytes)):
+                    try:
+                        yield from _flat(list(x))
+                    except (TypeError, ValueError):
+                        pass
+        elif hasattr(av, '__iter__') and not isinstance(av, (str, bytes)):
+            try:
+                yield from _flat(list(av))
+            except (TypeError, ValueError):
+                pass
